@@ -133,10 +133,8 @@ def _adapter_obj(repo, cname, n, kinds=None, extra=None):
 
 
 def _poly_eq(a, b):
-    try:
-        return poly_of(a) == poly_of(b)
-    except NotPolynomial:
-        return a == b
+    from ..absbase import same_value
+    return same_value(a, b)
 
 
 def _expected_remaining(n, rank_limit):
@@ -309,11 +307,12 @@ def r21_evict(repo, sink, tier="quick"):
             if pos[0] in ("below", "above"):
                 continue
             others = [None, "absent"] + [p for p in positions(n) if p[0] not in ("below", "above")]
-            for other in others:
+            for other, b_is_adapter in [(o_, ad_) for o_ in others for ad_ in ((False, True) if o_ not in (None, "absent") else (False,))]:
                 named = {Q: pos}
                 ra, rb = Sym("rA"), Sym("rB")
                 tgt_a = Obj(label="A")
-                tgt_b = Obj(label="B")
+                # the other registered consumer may be a push-based adapter (registers itself)
+                tgt_b = Obj(cls=repo.cls("NextTime"), label="B:adapter") if b_is_adapter else Obj(label="B")
                 conn = {tgt_a: None}
                 if other != "absent":
                     conn[tgt_b] = None if other is None else rb
